@@ -231,7 +231,7 @@ func (p *Program) VerifyFunction(id string) (res *FuncResult) {
 		}
 	}
 	// vacuity guard: the preconditions together must be satisfiable
-	cover := &Obligation{ID: id + "#cover.pre", Func: id, Kind: "cover", Desc: "preconditions are satisfiable", Reach: True, Cond: True,
+	cover := &Obligation{ID: id + "#cover.pre", Func: id, Kind: "cover", AssumeIdx: -1, Desc: "preconditions are satisfiable", Reach: True, Cond: True,
 		NAssume: len(e.assumes), Expect: "sat"}
 	e.obls = append(e.obls, cover)
 
@@ -342,7 +342,7 @@ func (p *Program) VerifyFunction(id string) (res *FuncResult) {
 			e.oblige("dead", fmt.Sprintf("dead.return%d", k+1), "this return is declared unreachable (dead code) in the contract", x.reach, False, nil)
 			continue
 		}
-		c := &Obligation{ID: fmt.Sprintf("%s#cover.return%d", id, k+1), Func: id, Kind: "cover", Desc: "return is reachable (assumptions along the path are consistent)",
+		c := &Obligation{ID: fmt.Sprintf("%s#cover.return%d", id, k+1), Func: id, Kind: "cover", AssumeIdx: -1, Desc: "return is reachable (assumptions along the path are consistent)",
 			Reach: x.reach, Cond: True, NAssume: len(e.assumes), Expect: "sat", Pos: e.posString(x.instr.Pos())}
 		e.obls = append(e.obls, c)
 	}
@@ -732,6 +732,10 @@ func (e *Engine) lockCheck(st *State, reach Term, a *Addr, write bool) {
 		return
 	}
 	if tc.Immutable[fname] {
+		if write && e.FC != nil && e.FC.Constructor {
+			e.note("immutable field %s initialised in the configuration phase (constructor)", what)
+			return
+		}
 		if write {
 			key := "lock.immutable@" + what
 			e.kindOrd[key]++
@@ -743,6 +747,88 @@ func (e *Engine) lockCheck(st *State, reach Term, a *Addr, write bool) {
 		e.unclassified[what] = true
 		e.oblige("lock.held", "lock.unclassified@"+what, "field "+what+" is neither guarded_by a lock nor immutable", reach, False, nil)
 	}
+}
+
+// ownedRec: a reference loaded from an `owns` field: the lock that protects the object behind it.
+type ownedRec struct {
+	lock    Term
+	what    string
+	readers map[string]bool
+}
+
+// noteOwned: remember references loaded from fields declared `owns <lock>: <field>`.
+func (e *Engine) noteOwned(st *State, a *Addr, out Val) {
+	if a.Kind != aHeap || !e.lockChecks {
+		return
+	}
+	named, ok := a.Root.(*types.Named)
+	if !ok || named.Obj().Pkg() == nil {
+		return
+	}
+	tc := e.P.Contracts.Types[named.Obj().Pkg().Name()+"."+named.Obj().Name()]
+	if tc == nil || len(tc.Owned) == 0 {
+		return
+	}
+	stt, ok := named.Underlying().(*types.Struct)
+	if !ok {
+		return
+	}
+	if a.Site > 0 && !e.reified[a.Site] {
+		return
+	}
+	for i := 0; i < stt.NumFields(); i++ {
+		off, n := fieldRange(named, i)
+		of := tc.Owned[stt.Field(i).Name()]
+		if of == nil || a.Off < off || a.Off >= off+n || a.Off != off {
+			continue
+		}
+		var m Term
+		for j := 0; j < stt.NumFields(); j++ {
+			if stt.Field(j).Name() == of.Lock {
+				loff, _ := fieldRange(named, j)
+				lf := Layout(named)[loff]
+				if lf.Kind == kRef {
+					m = Select(st.comp("H."+typeID(named)+"."+lf.Path, ArraySort(SInt, SInt)), a.Ref, SInt)
+				}
+			}
+		}
+		if m.S == "" || len(out.L) == 0 {
+			continue
+		}
+		leaf := out.L[0]
+		if _, isIface := out.T.Underlying().(*types.Interface); isIface && len(out.L) == 2 {
+			leaf = out.L[1]
+		}
+		if e.ownedVals == nil {
+			e.ownedVals = map[string]*ownedRec{}
+		}
+		e.ownedVals[leaf.S] = &ownedRec{lock: m, what: named.Obj().Name() + "." + stt.Field(i).Name(), readers: of.Readers}
+	}
+}
+
+// ownedCallCheck: a method call on an object that belongs to a lock's representation needs that lock.
+func (e *Engine) ownedCallCheck(st *State, reach Term, recv Val, method string) {
+	if len(e.ownedVals) == 0 || len(recv.L) == 0 {
+		return
+	}
+	leaf := recv.L[0]
+	if _, isIface := recv.T.Underlying().(*types.Interface); isIface && len(recv.L) == 2 {
+		leaf = recv.L[1]
+	}
+	rec := e.ownedVals[leaf.S]
+	if rec == nil {
+		return
+	}
+	cur := Select(e.heldArr(st), rec.lock, SInt)
+	cond := Bin(SBool, ">=", cur, IntLit(1))
+	mode := "any"
+	if !rec.readers[method] {
+		cond = Eq(cur, IntLit(2))
+		mode = "write"
+	}
+	key := "lock.held@" + rec.what + "." + method
+	e.kindOrd[key]++
+	e.oblige("lock.held", fmt.Sprintf("%s#%d", key, e.kindOrd[key]), "call of "+method+" on the object owned through "+rec.what+" without holding its lock ("+mode+" mode needed)", reach, cond, nil)
 }
 
 func (e *Engine) lockCheckMap(st *State, reach Term, m ssa.Value, write bool) {}
